@@ -98,3 +98,54 @@ Example C16_nonvacuous :
   (exists r, u256_idiv_u128 dev 5 7 (2 ^ 65 + 3) = Val (0, (5 * 2 ^ 128 + 7) / (2 ^ 65 + 3), r)) /\
   i256_div_mod_floor dev MAXC MAXC 1 = Val None.
 Proof. vm_compute. repeat split. eexists. reflexivity. Qed.
+
+(* ---- the same kernel facts about the functions translated from /repo's current source (gen/GenCore.v,
+   regenerated by tools/rs2v.py on every run; tie lemmas in proofs/GenTie*.v) ---- *)
+From FP Require Import GenCore GenTieWide.
+
+Theorem C16_source_wide_product :
+  forall pf x y, 0 <= x < 2 ^ 128 -> 0 <= y < 2 ^ 128 ->
+    g_u128_mul_u128 pf x y = Val ((x * y) / 2 ^ 128, (x * y) mod 2 ^ 128).
+Proof. exact src_wide_product. Qed.
+Check C16_source_wide_product :
+  forall pf x y, 0 <= x < 2 ^ 128 -> 0 <= y < 2 ^ 128 ->
+    g_u128_mul_u128 pf x y = Val ((x * y) / 2 ^ 128, (x * y) mod 2 ^ 128).
+Print Assumptions C16_source_wide_product.
+
+Theorem C16_source_wide_division :
+  forall pf xh xl y, 0 <= xh < 2 ^ 128 -> 0 <= xl < 2 ^ 128 -> 0 < y < 2 ^ 128 ->
+    exists qh ql r, g_u256_idiv_u128 pf xh xl y = Val (qh, ql, r) /\
+      0 <= qh < 2 ^ 128 /\ 0 <= ql < 2 ^ 128 /\
+      qh * 2 ^ 128 + ql = (xh * 2 ^ 128 + xl) / y /\ r = (xh * 2 ^ 128 + xl) mod y.
+Proof. exact src_wide_division. Qed.
+Check C16_source_wide_division :
+  forall pf xh xl y, 0 <= xh < 2 ^ 128 -> 0 <= xl < 2 ^ 128 -> 0 < y < 2 ^ 128 ->
+    exists qh ql r, g_u256_idiv_u128 pf xh xl y = Val (qh, ql, r) /\
+      0 <= qh < 2 ^ 128 /\ 0 <= ql < 2 ^ 128 /\
+      qh * 2 ^ 128 + ql = (xh * 2 ^ 128 + xl) / y /\ r = (xh * 2 ^ 128 + xl) mod y.
+Print Assumptions C16_source_wide_division.
+
+Theorem C16_source_msb :
+  forall pf i, 0 < i < 2 ^ 128 -> g_u128_msb pf i = Val (Z.log2 i).
+Proof. exact src_msb. Qed.
+Check C16_source_msb :
+  forall pf i, 0 < i < 2 ^ 128 -> g_u128_msb pf i = Val (Z.log2 i).
+Print Assumptions C16_source_msb.
+
+Theorem C16_source_shifted_div_mod_floor :
+  forall pf a k m, - MAXC <= a <= MAXC -> 0 <= k <= 38 -> 0 < m <= MAXC ->
+    exists o, g_i128_shifted_div_mod_floor pf a k m = Val o /\ floor_ok (a * 10 ^ k) m o.
+Proof. exact src_shifted_div_mod_floor. Qed.
+Check C16_source_shifted_div_mod_floor :
+  forall pf a k m, - MAXC <= a <= MAXC -> 0 <= k <= 38 -> 0 < m <= MAXC ->
+    exists o, g_i128_shifted_div_mod_floor pf a k m = Val o /\ floor_ok (a * 10 ^ k) m o.
+Print Assumptions C16_source_shifted_div_mod_floor.
+
+Theorem C16_source_i256_div_mod_floor :
+  forall pf a b m, - MAXC <= a <= MAXC -> - MAXC <= b <= MAXC -> 0 < m <= MAXC ->
+    exists o, g_i256_div_mod_floor pf a b m = Val o /\ floor_ok (a * b) m o.
+Proof. exact src_i256_div_mod_floor. Qed.
+Check C16_source_i256_div_mod_floor :
+  forall pf a b m, - MAXC <= a <= MAXC -> - MAXC <= b <= MAXC -> 0 < m <= MAXC ->
+    exists o, g_i256_div_mod_floor pf a b m = Val o /\ floor_ok (a * b) m o.
+Print Assumptions C16_source_i256_div_mod_floor.
